@@ -101,7 +101,7 @@ func New(w *fakes.World, db *store.DB, opt Options) *Engine {
 		e.LC = e.V1
 		lcForProv, lcForOrch = e.V1, e.V1
 	}
-	e.Prov = provisioning.NewService(db, l, e.Pipes, e.Conns, e.Procs, w, lcForProv, "")
+	e.Prov = provisioning.NewService(store.Tagged{DB: db, Tag: "prov"}, l, e.Pipes, e.Conns, e.Procs, w, lcForProv, "")
 	e.Orch = orchestrator.NewOrchestrator(db, l, e.Pipes, e.Conns, e.Procs, w, procPlugins{w}, lcForOrch)
 	return e
 }
